@@ -159,7 +159,15 @@ static int all_blocked(void)
 			IDLE[i].actions = NULL;
 			idle_count++;
 			printf("T%d IDLE %d\n", me_, idle_count - 1);
-			run_actions(a);
+			{
+				/* the stimulus is executed by this (blocked) thread on behalf of the environment: while it
+				   runs library code it must be schedulable like any other thread */
+				int saved = VT[me_].state;
+				VT[me_].state = ST_RUNNABLE;
+				run_actions(a);
+				VT[me_].state = saved;
+			}
+			free(a);
 			activity++;
 			return -2;
 		}
@@ -893,6 +901,7 @@ static void apply_stimuli(void)
 			char *a = STM[i].actions;
 			STM[i].actions = NULL;
 			run_actions(a);
+			free(a);
 		}
 }
 
